@@ -242,7 +242,7 @@ class Hist:
         return self.snap[self.off_fac]
 
     def pair(self, p, field):
-        return self.snap[self.off_pairs + ((p - self.n_init) // 2) * 35 + field]
+        return self.snap[self.off_pairs + ((p - self.n_init) // 2) * 36 + field]
 
     def pair_exists(self, p):
         return self.pair(p, 0) == 1
@@ -506,12 +506,12 @@ def funds_for(assets_amounts):
     return [(a[1], n) for (a, n) in assets_amounts if a[0] == "n"]
 
 
-def setup_pairs(h, rng, pair_assets, whitelist=None, mins=(0, 0), comm=None, provide=True, scale=None):
+def setup_pairs(h, rng, pair_assets, whitelist=None, mins=(0, 0), comm=None, provide=True, scale=None, native_decs=None):
     """owner registers the natives, creates the pairs, everybody approves every pair, user0 seeds liquidity"""
     owner = h.owner()
     for d in range(h.nd):
         # the factory puts no bound on a native's decimals (u8): gaps of 20 and more against the other asset included
-        h.do(("fac_add_native", owner, d, rng.choice([6, 6, 18, 0, 8, 6, 18, 26, 38])))
+        h.do(("fac_add_native", owner, d, native_decs[d] if native_decs else rng.choice([6, 6, 6, 6, 18, 18, 18, 0, 8, 8, rng.choice([26, 38])])))    # wide gaps rarely: every swap on such a pair aborts
     created = []
     for (a0, a1) in pair_assets:
         wl = whitelist if whitelist is not None else [USER0, USER0 + 1]
@@ -890,8 +890,8 @@ def funds_matrix(rng, tier):
         nn, ntp = created[0], created[1]
         u = USER0 + 1
         attach = lambda d, decl: [None, 0, decl - 1, decl, decl + 1]
-        for decl in (0, v):
-            for att in attach(0, decl):
+        for decl in (0, v, 1, 3):      # 1 and 3: the return floors to zero on these pools (nothing is paid out)
+            for att in attach(0, decl) + ([decl * 1000] if decl in (1, 3) else []):
                 for extra in (False, True):
                     f = ([] if att is None else [(0, att)]) + ([(2, 7)] if extra else [])
                     if any(n < 0 for _, n in f):
@@ -1088,6 +1088,73 @@ def lookalike_histories(rng, tier):
     return cases
 
 
+def reseed_histories(rng, tier):
+    """every LP holder withdraws its whole balance (the supply falls back to the one locked unit, the pool keeps dust),
+    somebody donates to the deserted pool, then provisions arrive again - by a whitelisted and by another account, with
+    and without a receiver (C03, C05, C07)"""
+    cases = []
+    kinds = [(("n", 0), ("n", 1)), (("n", 0), ("t", 2)), (("t", 2), ("t", 3))]
+    for rep in range({"quick": 1, "thorough": 4}[tier]):
+        h = Hist(4, 2, 2, 3, 10 ** 15, 1000, [6, 18], "directed-matrix", "withdraw to the locked unit, then provide again")
+        created = setup_pairs(h, rng, kinds, whitelist=[USER0, USER0 + 1], mins=(rng.choice([0, 10]), 0), comm=3 * 10 ** 15, provide=False)
+        for i, p in enumerate(created):
+            a0, a1 = h.pair_assets(p)
+            lp = h.pair_lp(p)
+            n0, n1 = rng.choice([(1000, 6000), (10 ** 6, 10 ** 6), (50000, 10 ** 9)])
+            h.do(("provide", p, USER0, funds_for([(a0, n0), (a1, n1)]), a0, n0, a1, n1, None, None))
+            if (i + rep) % 2 == 0:
+                h.do(("provide", p, USER0 + 2, funds_for([(a0, n0 // 2), (a1, n1 // 2)]), a0, n0 // 2, a1, n1 // 2, None, USER0 + 3))
+            h.do(gen_swap(h, rng, p, USER0 + 1, limits=False))
+            for u in h.users():
+                b = h.bal(lp, u)
+                if b > 0:
+                    h.do(("send", lp, u, p, b, ("hwithdraw",)))
+            if (i + rep) % 3 != 2:
+                # somebody sends assets to the deserted pool
+                for a, n in ((a0, rng.choice([5, 10 ** 4])), (a1, rng.choice([7, 10 ** 5]))):
+                    h.do(("bank", USER0 + 2, p, [(a[1], n)]) if a[0] == "n" else ("transfer", a[1], USER0 + 2, p, n))
+            for c, rcv in ((USER0 + 2, None), (USER0 + 1, USER0 + 3), (USER0, None), (USER0 + 2, USER0 + 1)):
+                r0, r1 = h.reserves(p)
+                d0 = rng.choice([50000, max(1, r0) * 3, 10 ** 6])
+                d1 = max(1, d0 * max(1, r1) // max(1, r0))
+                h.do(("provide", p, c, funds_for([(a0, d0), (a1, d1)]), a0, d0, a1, d1, None, rcv))
+            h.do(gen_swap(h, rng, p, USER0 + 1, limits=False))
+        cases.append(h.finish())
+    return cases
+
+
+def lp_handover_histories(rng, tier):
+    """LP tokens change hands by plain cw20 transfers (to accounts that never provided, in parts and in whole), then every
+    holder withdraws - the whole balance first for the accounts that only ever received LP, then the original providers
+    (C20, C04)"""
+    cases = []
+    kinds = [(("n", 0), ("t", 2)), (("t", 2), ("t", 3)), (("n", 0), ("n", 1))]
+    for rep in range({"quick": 1, "thorough": 4}[tier]):
+        h = Hist(4, 2, 2, 3, 10 ** 15, 1000, [6, 18], "directed-matrix", "LP handed over by transfer, then withdrawn")
+        created = setup_pairs(h, rng, kinds, comm=3 * 10 ** 15, scale=10 ** 9, native_decs=[6, 6])
+        for i, p in enumerate(created):
+            lp = h.pair_lp(p)
+            a0, a1 = h.pair_assets(p)
+            if (i + rep) % 2 == 0:
+                r0, r1 = h.reserves(p)
+                h.do(("provide", p, USER0 + 1, funds_for([(a0, r0 // 3), (a1, r1 // 3)]), a0, r0 // 3, a1, r1 // 3, None, None))
+            b = h.bal(lp, USER0)
+            h.do(("transfer", lp, USER0, USER0 + 2, b // 4))
+            h.do(("transfer", lp, USER0, USER0 + 3, b // 5))
+            if (i + rep) % 3 == 0:
+                h.do(("transfer", lp, USER0 + 2, USER0 + 3, h.bal(lp, USER0 + 2)))      # a holder hands over everything
+            h.do(gen_swap(h, rng, p, USER0 + 1, limits=False))
+            for u in (USER0 + 3, USER0 + 2, USER0 + 1, USER0):
+                b = h.bal(lp, u)
+                if b > 0:
+                    if u == USER0 + 1:
+                        h.do(("send", lp, u, p, max(1, b // 2), ("hwithdraw",)))
+                        b = h.bal(lp, u)
+                    h.do(("send", lp, u, p, b, ("hwithdraw",)))
+        cases.append(h.finish())
+    return cases
+
+
 def swap_matrix(rng, tier):
     """delivered asset x named asset x named amount x funds x receiver, per pair kind (C02)"""
     cases = []
@@ -1207,6 +1274,21 @@ def router_histories(rng, tier):
                 h.do(("router_ops", u, [(ops[0][0][1], amount)], ops, m, to), quote)
             else:
                 h.do(("send", ops[0][0][1], u, ROUTER, amount, ("hrouter", ops, m, to)), quote)
+        if rep == 0:
+            # a hop inside the recorded rounding window (KF-ceil-window: reserves 2e18/2e18, offer 1, the pool pays 1):
+            # the router must still deliver exactly what it quotes, as a single hop and as the first of two
+            hk = Hist(3, 2, 2, 3, 10 ** 20, 1000, [18, 18], "corpus", "route through a hop inside the recorded rounding window")
+            ck = setup_pairs(hk, rng, [(("n", 0), ("t", 2)), (("t", 2), ("t", 3)), (("n", 0), ("n", 1))], comm=3 * 10 ** 15, provide=False,
+                             native_decs=[18, 18])
+            for q in ck:
+                q0, q1 = hk.pair_assets(q)
+                hk.do(("provide", q, USER0, funds_for([(q0, 2 * 10 ** 18), (q1, 2 * 10 ** 18)]), q0, 2 * 10 ** 18, q1, 2 * 10 ** 18, None, None))
+            for kops, kto in (([(("n", 0), ("t", 2))], None), ([(("n", 0), ("t", 2)), (("t", 2), ("t", 3))], USER0 + 2),
+                              ([(("n", 1), ("n", 0))], USER0 + 2)):
+                for amt in (1, 2):
+                    kq = hk.query("rsim %d %s" % (amt, ops_line(kops)))
+                    hk.do(("router_ops", USER0 + 1, [(kops[0][0][1], amt)], kops, None, kto), kq)
+            cases.append(hk.finish())
         # directed: the recipient is itself a participant of the route whose balance of the final asset FALLS during it
         # (a pool that sells the final asset in the first hop of a route that comes back to it; the router itself)
         for ops, to_kind in (([(A, B), (B, C), (C, B)], "pool0"), ([(B, C), (C, E), (E, B)], "router"),
@@ -1220,6 +1302,14 @@ def router_histories(rng, tier):
                     h.do(("router_ops", u, [(ops[0][0][1], amount)], ops, m, to), quote)
                 else:
                     h.do(("send", ops[0][0][1], u, ROUTER, amount, ("hrouter", ops, m, to)), quote)
+        # directed: routes that pass the router's shape check without being a chain - one dangling output, plus a native hop
+        # that neither the attached funds nor an earlier hop feeds
+        for ops in ([(("n", 0), ("t", 2)), (("n", 1), ("t", 2))], [(("n", 1), ("t", 2)), (("n", 0), ("t", 2))],
+                    [(("n", 0), ("t", 2)), (("n", 1), ("t", 3)), (("t", 2), ("t", 3))]):
+            u = rng.choice(h.users())
+            amount = max(1, min(h.abal(("n", 0), u), loguniform(rng, 10, 40)))
+            quote = h.query("rsim %d %s" % (amount, ops_line(ops)))
+            h.do(("router_ops", u, [(0, amount)], ops, None, rng.choice([None, USER0 + 1])), quote)
         n_steps = {"quick": 20, "thorough": 40}[tier]
         for step_i in range(n_steps):
             u = rng.choice(h.users())
